@@ -1017,7 +1017,20 @@ fn collect_inlinable(items: &[syn::Item], impl_of: Option<&String>, skip: &std::
     let mut consider = |sig: &syn::Signature, block: &syn::Block, out: &mut BTreeMap<String, HelperBody>| {
         let name = sig.ident.to_string();
         if skip.contains(&name) { return; }
-        // (eligibility is decided on the LOWERED body, see `helper_eligible`)
+        // hard exclusions on the SOURCE body (constructs the lowering itself cannot take); closures and
+        // early exits are judged on the LOWERED body later (rules may have turned them into matches)
+        {
+            struct Pre { bad: bool }
+            impl<'ast> syn::visit::Visit<'ast> for Pre {
+                fn visit_expr(&mut self, e: &'ast Expr) {
+                    if matches!(e, Expr::While(_) | Expr::Loop(_) | Expr::ForLoop(_) | Expr::Break(_) | Expr::Continue(_) | Expr::Async(_) | Expr::Unsafe(_) | Expr::Yield(_)) { self.bad = true; }
+                    syn::visit::visit_expr(self, e);
+                }
+            }
+            let mut pre = Pre { bad: false };
+            syn::visit::Visit::visit_block(&mut pre, block);
+            if pre.bad { return; }
+        }
         let mut params = Vec::new();
         let mut has_self = false;
         for a in &sig.inputs {
